@@ -7,6 +7,29 @@ Local Open Scope N_scope.
 Lemma is_none_eq {A} (o : option A) : is_none o = true <-> o = None.
 Proof. destruct o; cbn; split; intros; try discriminate; reflexivity. Qed.
 
+(* the facts about a successful call that the cardinality argument uses *)
+Definition legal0 (g : ghost) (cl : call) (o : outcome) : bool :=
+  match o with
+  | Fail => true
+  | Ok r =>
+      match cl with
+      | MintSeq _ =>
+          match r with
+          | Some id => (g_next g <=? id) && is_none (rget (g_own g) id)
+          | None => false
+          end
+      | MintId _ id => is_none (rget (g_own g) id)
+      | BatchMint _ amount =>
+          match r with
+          | Some last => (1 <=? amount) && (amount <=? last + 1) && (g_next g <=? last + 1 - amount)
+          | None => false
+          end
+      | Transfer _ from _ id | TransferFrom _ _ from _ id | Burn _ from id | BurnFrom _ _ from id =>
+          oaddr_eqb (rget (g_own g) id) (Some from)
+      | _ => true
+      end
+  end.
+
 Definition is_mint_id (cl : call) : Prop := match cl with MintId _ _ => True | _ => False end.
 Definition is_batch (cl : call) : Prop := match cl with BatchMint _ _ => True | _ => False end.
 
@@ -21,12 +44,12 @@ Proof.
 Qed.
 
 Lemma card_step (bounded : Prop) g cl r :
-  CardInv bounded g -> c10_legal g cl (Ok r) = true ->
+  CardInv bounded g -> legal0 g cl (Ok r) = true ->
   (bounded -> ~ is_mint_id cl) -> (is_batch cl -> bounded) ->
   CardInv bounded (ghost_step g cl (Ok r)).
 Proof.
   intros Hinv Hl Hnm Hbt.
-  destruct cl; cbn [c10_legal] in Hl; cbn [ghost_step].
+  destruct cl; cbn [legal0] in Hl; cbn [ghost_step].
   - (* Advance *) destruct Hinv as (dom&H). exists dom. exact H.
   - (* MintSeq *)
     destruct r as [id|]; [|discriminate]. apply andb_true_iff in Hl. destruct Hl as [Hle Hfr].
@@ -50,7 +73,7 @@ Proof.
   - (* BatchMint *)
     destruct r as [last|]; [|discriminate].
     repeat (apply andb_true_iff in Hl; destruct Hl as [Hl ?]).
-    apply N.leb_le in Hl, H2, H1.
+    apply N.leb_le in Hl, H0, H.
     unfold CardInv. cbn [g_own g_cnt g_supply g_next].
     assert (HB : bounded) by (apply Hbt; exact I).
     destruct (card_range bounded g (last + 1 - amount) last to (LRange (last + 1 - amount) last to :: g_own g)
@@ -100,4 +123,27 @@ Proof.
     + intros _. split; [lia|]. intros X. rewrite Hl in X. discriminate.
   - destruct Hinv as (dom&H). exists dom. exact H.
   - destruct Hinv as (dom&H). exists dom. exact H.
+Qed.
+
+
+(* what the monitor's scope and legality tests give *)
+Lemma legal0_of_scope fl g cl r :
+  mint_scope fl g cl (Ok r) = InScope -> c10_legal g cl (Ok r) = true ->
+  legal0 g cl (Ok r) = true /\ (fl = FCons -> ~ is_mint_id cl) /\ (is_batch cl -> fl = FCons).
+Proof.
+  intros Hs Hl. destruct cl; cbn [mint_scope c10_legal legal0 is_mint_id is_batch] in *;
+    try (split; [reflexivity | split; [intros _ X; exact X | intros X; destruct X]]).
+  - destruct fl; try discriminate; (destruct r as [id|]; [|discriminate]);
+      (destruct (id <? g_next g) eqn:E; [discriminate|]); apply N.ltb_ge in E;
+      (destruct (is_none (rget (g_own g) id)) eqn:E2; [|discriminate]);
+      (split; [apply andb_true_iff; split; [apply N.leb_le; exact E | reflexivity] | split; [intros X; discriminate X | intros X; destruct X]]).
+  - destruct fl; try discriminate; (destruct (is_none (rget (g_own g) id)) eqn:E2; [|discriminate]);
+      (split; [reflexivity | split; [intros X; discriminate X | intros X; destruct X]]).
+  - destruct fl; try discriminate. destruct r as [last|]; [|discriminate].
+    destruct ((1 <=? amount) && (amount <=? last + 1) && (g_next g <=? last + 1 - amount)) eqn:E; [|discriminate].
+    split; [reflexivity | split; [intros _ X; exact X | reflexivity]].
+  - apply andb_true_iff in Hl. destruct Hl as [_ Hl]. split; [exact Hl | split; [intros _ X; exact X | intros X; destruct X]].
+  - apply andb_true_iff in Hl. destruct Hl as [_ Hl]. split; [exact Hl | split; [intros _ X; exact X | intros X; destruct X]].
+  - apply andb_true_iff in Hl. destruct Hl as [_ Hl]. split; [exact Hl | split; [intros _ X; exact X | intros X; destruct X]].
+  - apply andb_true_iff in Hl. destruct Hl as [_ Hl]. split; [exact Hl | split; [intros _ X; exact X | intros X; destruct X]].
 Qed.
